@@ -15,8 +15,8 @@ def plan(pid, tier, seed):
     quick = tier == "quick"
     if quick:
         mc = [
-            {"module": "Arch", "cfg": "Arch_MC_quick.cfg", "emit": True, "sample": 1500, "properties": PROPS, "timeout": 600},
-            {"module": "Arch", "cfg": "Arch_MC_merge_quick.cfg", "emit": True, "sample": 1500, "properties": PROPS, "timeout": 600},
+            {"module": "Arch", "cfg": "Arch_MC_quick.cfg", "emit": True, "sample": 1200, "properties": PROPS, "timeout": 600},
+            {"module": "Arch", "cfg": "Arch_MC_merge_quick.cfg", "emit": True, "sample": 1200, "properties": PROPS, "timeout": 600},
         ]
     else:
         mc = [
@@ -32,7 +32,7 @@ def plan(pid, tier, seed):
         "needs_coca": True,
         "mc": mc,
         "gen": [],
-        "rand": 600 if quick else 15000,
+        "rand": 500 if quick else 15000,
         "trace": TRACE,
     }
 
